@@ -6,190 +6,190 @@ open ImathVerif
 
 /-- extracted from the C++ template at T = Sym; 1 path(s) -/
 def C07.Frustum.projectionMatrix_persp {α : Type} [Add α] [Sub α] [Mul α] [Div α] [Neg α] [OfNat α 0] [OfNat α 1] [OfNat α 2] (n : α) (f : α) (l : α) (r : α) (t : α) (b : α) : (M44 α) :=
-  let t639 := (r - l)
-  let t641 := (t - b)
-  let t643 := (f - n)
-  let t653 := ((2 : α) * n)
-  ⟨(t653 / t639), (0 : α), (0 : α), (0 : α), (0 : α), (t653 / t641), (0 : α), (0 : α), ((r + l) / t639), ((t + b) / t641), ((-(f + n)) / t643), (-(1 : α)), (0 : α), (0 : α), ((((-(2 : α)) * f) * n) / t643), (0 : α)⟩
+  let t674 := (r - l)
+  let t676 := (t - b)
+  let t678 := (f - n)
+  let t688 := ((2 : α) * n)
+  ⟨(t688 / t674), (0 : α), (0 : α), (0 : α), (0 : α), (t688 / t676), (0 : α), (0 : α), ((r + l) / t674), ((t + b) / t676), ((-(f + n)) / t678), (-(1 : α)), (0 : α), (0 : α), ((((-(2 : α)) * f) * n) / t678), (0 : α)⟩
 
 /-- extracted from the C++ template at T = Sym; 27 path(s) -/
 def C07.Frustum.projectionMatrixExc_persp {α : Type} [Add α] [Sub α] [Mul α] [Div α] [Neg α] [LT α] [DecidableLT α] [OfNat α 0] [OfNat α 1] [OfNat α 2] (tmax : α) (n : α) (f : α) (l : α) (r : α) (t : α) (b : α) : Except Exc (M44 α) :=
-  let t638 := (r + l)
-  let t639 := (r - l)
-  let t640 := (t + b)
-  let t641 := (t - b)
-  let t642 := (f + n)
-  let t643 := (f - n)
-  let t644 := (t638 / t639)
-  let t645 := (t640 / t641)
-  let t647 := ((-t642) / t643)
-  let t650 := (((-(2 : α)) * f) * n)
-  let t651 := (t650 / t643)
-  let t653 := ((2 : α) * n)
-  let t654 := (t653 / t639)
-  let t655 := (t653 / t641)
-  let t657 := (sabs t639)
-  let t658 := (tmax * t657)
-  let t659 := (sabs t638)
-  let t660 := (sabs t641)
-  let t661 := (tmax * t660)
-  let t662 := (sabs t640)
-  let t663 := (sabs t643)
-  let t664 := (tmax * t663)
-  let t665 := (sabs t642)
-  let t666 := (sabs t650)
-  let t667 := (sabs t653)
-  if t657 < (1 : α) then
-    if t658 < t659 then
+  let t673 := (r + l)
+  let t674 := (r - l)
+  let t675 := (t + b)
+  let t676 := (t - b)
+  let t677 := (f + n)
+  let t678 := (f - n)
+  let t679 := (t673 / t674)
+  let t680 := (t675 / t676)
+  let t682 := ((-t677) / t678)
+  let t685 := (((-(2 : α)) * f) * n)
+  let t686 := (t685 / t678)
+  let t688 := ((2 : α) * n)
+  let t689 := (t688 / t674)
+  let t690 := (t688 / t676)
+  let t692 := (sabs t674)
+  let t693 := (tmax * t692)
+  let t694 := (sabs t673)
+  let t695 := (sabs t676)
+  let t696 := (tmax * t695)
+  let t697 := (sabs t675)
+  let t698 := (sabs t678)
+  let t699 := (tmax * t698)
+  let t700 := (sabs t677)
+  let t701 := (sabs t685)
+  let t702 := (sabs t688)
+  if t692 < (1 : α) then
+    if t693 < t694 then
       .error Exc.domainError
     else
-      if t660 < (1 : α) then
-        if t661 < t662 then
+      if t695 < (1 : α) then
+        if t696 < t697 then
           .error Exc.domainError
         else
-          if t663 < (1 : α) then
-            if t664 < t665 then
+          if t698 < (1 : α) then
+            if t699 < t700 then
               .error Exc.domainError
             else
-              if t664 < t666 then
+              if t699 < t701 then
                 .error Exc.domainError
               else
-                if t658 < t667 then
+                if t693 < t702 then
                   .error Exc.domainError
                 else
-                  if t661 < t667 then
+                  if t696 < t702 then
                     .error Exc.domainError
                   else
-                    .ok (⟨t654, (0 : α), (0 : α), (0 : α), (0 : α), t655, (0 : α), (0 : α), t644, t645, t647, (-(1 : α)), (0 : α), (0 : α), t651, (0 : α)⟩)
+                    .ok (⟨t689, (0 : α), (0 : α), (0 : α), (0 : α), t690, (0 : α), (0 : α), t679, t680, t682, (-(1 : α)), (0 : α), (0 : α), t686, (0 : α)⟩)
           else
-            if t658 < t667 then
+            if t693 < t702 then
               .error Exc.domainError
             else
-              if t661 < t667 then
+              if t696 < t702 then
                 .error Exc.domainError
               else
-                .ok (⟨t654, (0 : α), (0 : α), (0 : α), (0 : α), t655, (0 : α), (0 : α), t644, t645, t647, (-(1 : α)), (0 : α), (0 : α), t651, (0 : α)⟩)
+                .ok (⟨t689, (0 : α), (0 : α), (0 : α), (0 : α), t690, (0 : α), (0 : α), t679, t680, t682, (-(1 : α)), (0 : α), (0 : α), t686, (0 : α)⟩)
       else
-        if t663 < (1 : α) then
-          if t664 < t665 then
+        if t698 < (1 : α) then
+          if t699 < t700 then
             .error Exc.domainError
           else
-            if t664 < t666 then
+            if t699 < t701 then
               .error Exc.domainError
             else
-              if t658 < t667 then
+              if t693 < t702 then
                 .error Exc.domainError
               else
-                .ok (⟨t654, (0 : α), (0 : α), (0 : α), (0 : α), t655, (0 : α), (0 : α), t644, t645, t647, (-(1 : α)), (0 : α), (0 : α), t651, (0 : α)⟩)
+                .ok (⟨t689, (0 : α), (0 : α), (0 : α), (0 : α), t690, (0 : α), (0 : α), t679, t680, t682, (-(1 : α)), (0 : α), (0 : α), t686, (0 : α)⟩)
         else
-          if t658 < t667 then
+          if t693 < t702 then
             .error Exc.domainError
           else
-            .ok (⟨t654, (0 : α), (0 : α), (0 : α), (0 : α), t655, (0 : α), (0 : α), t644, t645, t647, (-(1 : α)), (0 : α), (0 : α), t651, (0 : α)⟩)
+            .ok (⟨t689, (0 : α), (0 : α), (0 : α), (0 : α), t690, (0 : α), (0 : α), t679, t680, t682, (-(1 : α)), (0 : α), (0 : α), t686, (0 : α)⟩)
   else
-    if t660 < (1 : α) then
-      if t661 < t662 then
+    if t695 < (1 : α) then
+      if t696 < t697 then
         .error Exc.domainError
       else
-        if t663 < (1 : α) then
-          if t664 < t665 then
+        if t698 < (1 : α) then
+          if t699 < t700 then
             .error Exc.domainError
           else
-            if t664 < t666 then
+            if t699 < t701 then
               .error Exc.domainError
             else
-              if t661 < t667 then
+              if t696 < t702 then
                 .error Exc.domainError
               else
-                .ok (⟨t654, (0 : α), (0 : α), (0 : α), (0 : α), t655, (0 : α), (0 : α), t644, t645, t647, (-(1 : α)), (0 : α), (0 : α), t651, (0 : α)⟩)
+                .ok (⟨t689, (0 : α), (0 : α), (0 : α), (0 : α), t690, (0 : α), (0 : α), t679, t680, t682, (-(1 : α)), (0 : α), (0 : α), t686, (0 : α)⟩)
         else
-          if t661 < t667 then
+          if t696 < t702 then
             .error Exc.domainError
           else
-            .ok (⟨t654, (0 : α), (0 : α), (0 : α), (0 : α), t655, (0 : α), (0 : α), t644, t645, t647, (-(1 : α)), (0 : α), (0 : α), t651, (0 : α)⟩)
+            .ok (⟨t689, (0 : α), (0 : α), (0 : α), (0 : α), t690, (0 : α), (0 : α), t679, t680, t682, (-(1 : α)), (0 : α), (0 : α), t686, (0 : α)⟩)
     else
-      if t663 < (1 : α) then
-        if t664 < t665 then
+      if t698 < (1 : α) then
+        if t699 < t700 then
           .error Exc.domainError
         else
-          if t664 < t666 then
+          if t699 < t701 then
             .error Exc.domainError
           else
-            .ok (⟨t654, (0 : α), (0 : α), (0 : α), (0 : α), t655, (0 : α), (0 : α), t644, t645, t647, (-(1 : α)), (0 : α), (0 : α), t651, (0 : α)⟩)
+            .ok (⟨t689, (0 : α), (0 : α), (0 : α), (0 : α), t690, (0 : α), (0 : α), t679, t680, t682, (-(1 : α)), (0 : α), (0 : α), t686, (0 : α)⟩)
       else
-        .ok (⟨t654, (0 : α), (0 : α), (0 : α), (0 : α), t655, (0 : α), (0 : α), t644, t645, t647, (-(1 : α)), (0 : α), (0 : α), t651, (0 : α)⟩)
+        .ok (⟨t689, (0 : α), (0 : α), (0 : α), (0 : α), t690, (0 : α), (0 : α), t679, t680, t682, (-(1 : α)), (0 : α), (0 : α), t686, (0 : α)⟩)
 
 /-- extracted from the C++ template at T = Sym; 2 path(s) -/
 def C07.Frustum.projectPointToScreen_persp {α : Type} [Add α] [Sub α] [Mul α] [Div α] [Neg α] [DecidableEq α] [OfNat α 0] [OfNat α 2] (n : α) (f : α) (l : α) (r : α) (t : α) (b : α) (p : V3 α) : (V2 α) :=
-  let t674 := (l - r)
-  let t678 := (b - t)
-  let t681 := (-p.z)
+  let t709 := (l - r)
+  let t713 := (b - t)
+  let t716 := (-p.z)
   if p.z = (0 : α) then
-    ⟨(((l - ((2 : α) * p.x)) + r) / t674), (((b - ((2 : α) * p.y)) + t) / t678)⟩
+    ⟨(((l - ((2 : α) * p.x)) + r) / t709), (((b - ((2 : α) * p.y)) + t) / t713)⟩
   else
-    ⟨(((l - ((2 : α) * ((p.x * n) / t681))) + r) / t674), (((b - ((2 : α) * ((p.y * n) / t681))) + t) / t678)⟩
+    ⟨(((l - ((2 : α) * ((p.x * n) / t716))) + r) / t709), (((b - ((2 : α) * ((p.y * n) / t716))) + t) / t713)⟩
 
 /-- extracted from the C++ template at T = Sym; 14 path(s) -/
 def C07.Frustum.projectPointToScreenExc_persp {α : Type} [Add α] [Sub α] [Mul α] [Div α] [Neg α] [LT α] [DecidableLT α] [DecidableEq α] [OfNat α 0] [OfNat α 1] [OfNat α 2] (tmax : α) (n : α) (f : α) (l : α) (r : α) (t : α) (b : α) (p : V3 α) : Except Exc (V2 α) :=
-  let t673 := ((l - ((2 : α) * p.x)) + r)
-  let t674 := (l - r)
-  let t677 := ((b - ((2 : α) * p.y)) + t)
-  let t678 := (b - t)
-  let t679 := (t677 / t678)
-  let t680 := (t673 / t674)
-  let t681 := (-p.z)
-  let t688 := ((l - ((2 : α) * ((p.x * n) / t681))) + r)
-  let t691 := ((b - ((2 : α) * ((p.y * n) / t681))) + t)
-  let t692 := (t691 / t678)
-  let t693 := (t688 / t674)
-  let t694 := (sabs t674)
-  let t695 := (tmax * t694)
-  let t696 := (sabs t673)
-  let t697 := (sabs t678)
-  let t698 := (tmax * t697)
-  let t699 := (sabs t677)
-  let t700 := (sabs t688)
-  let t701 := (sabs t691)
+  let t708 := ((l - ((2 : α) * p.x)) + r)
+  let t709 := (l - r)
+  let t712 := ((b - ((2 : α) * p.y)) + t)
+  let t713 := (b - t)
+  let t714 := (t712 / t713)
+  let t715 := (t708 / t709)
+  let t716 := (-p.z)
+  let t723 := ((l - ((2 : α) * ((p.x * n) / t716))) + r)
+  let t726 := ((b - ((2 : α) * ((p.y * n) / t716))) + t)
+  let t727 := (t726 / t713)
+  let t728 := (t723 / t709)
+  let t729 := (sabs t709)
+  let t730 := (tmax * t729)
+  let t731 := (sabs t708)
+  let t732 := (sabs t713)
+  let t733 := (tmax * t732)
+  let t734 := (sabs t712)
+  let t735 := (sabs t723)
+  let t736 := (sabs t726)
   if p.z = (0 : α) then
-    if t694 < (1 : α) then
-      if t695 < t696 then
+    if t729 < (1 : α) then
+      if t730 < t731 then
         .error Exc.domainError
       else
-        if t697 < (1 : α) then
-          if t698 < t699 then
+        if t732 < (1 : α) then
+          if t733 < t734 then
             .error Exc.domainError
           else
-            .ok (⟨t680, t679⟩)
+            .ok (⟨t715, t714⟩)
         else
-          .ok (⟨t680, t679⟩)
+          .ok (⟨t715, t714⟩)
     else
-      if t697 < (1 : α) then
-        if t698 < t699 then
+      if t732 < (1 : α) then
+        if t733 < t734 then
           .error Exc.domainError
         else
-          .ok (⟨t680, t679⟩)
+          .ok (⟨t715, t714⟩)
       else
-        .ok (⟨t680, t679⟩)
+        .ok (⟨t715, t714⟩)
   else
-    if t694 < (1 : α) then
-      if t695 < t700 then
+    if t729 < (1 : α) then
+      if t730 < t735 then
         .error Exc.domainError
       else
-        if t697 < (1 : α) then
-          if t698 < t701 then
+        if t732 < (1 : α) then
+          if t733 < t736 then
             .error Exc.domainError
           else
-            .ok (⟨t693, t692⟩)
+            .ok (⟨t728, t727⟩)
         else
-          .ok (⟨t693, t692⟩)
+          .ok (⟨t728, t727⟩)
     else
-      if t697 < (1 : α) then
-        if t698 < t701 then
+      if t732 < (1 : α) then
+        if t733 < t736 then
           .error Exc.domainError
         else
-          .ok (⟨t693, t692⟩)
+          .ok (⟨t728, t727⟩)
       else
-        .ok (⟨t693, t692⟩)
+        .ok (⟨t728, t727⟩)
 
 /-- extracted from the C++ template at T = Sym; 1 path(s) -/
 def C07.Frustum.normalizedZToDepth_persp {α : Type} [Sub α] [Mul α] [Div α] [OfNat α 1] [OfNat α 2] (n : α) (f : α) (l : α) (r : α) (t : α) (b : α) (z : α) : α :=
@@ -197,19 +197,19 @@ def C07.Frustum.normalizedZToDepth_persp {α : Type} [Sub α] [Mul α] [Div α] 
 
 /-- extracted from the C++ template at T = Sym; 3 path(s) -/
 def C07.Frustum.normalizedZToDepthExc_persp {α : Type} [Sub α] [Mul α] [Div α] [Neg α] [LT α] [DecidableLT α] [OfNat α 0] [OfNat α 1] [OfNat α 2] (tmax : α) (n : α) (f : α) (l : α) (r : α) (t : α) (b : α) (z : α) : Except Exc α :=
-  let t706 := (((2 : α) * f) * n)
-  let t709 := (((((z * (2 : α)) - (1 : α)) * (f - n)) - f) - n)
-  let t710 := (t706 / t709)
-  let t711 := (sabs t709)
-  let t712 := (tmax * t711)
-  let t713 := (sabs t706)
-  if t711 < (1 : α) then
-    if t712 < t713 then
+  let t741 := (((2 : α) * f) * n)
+  let t744 := (((((z * (2 : α)) - (1 : α)) * (f - n)) - f) - n)
+  let t745 := (t741 / t744)
+  let t746 := (sabs t744)
+  let t747 := (tmax * t746)
+  let t748 := (sabs t741)
+  if t746 < (1 : α) then
+    if t747 < t748 then
       .error Exc.domainError
     else
-      .ok (t710)
+      .ok (t745)
   else
-    .ok (t710)
+    .ok (t745)
 
 /-- extracted from the C++ template at T = Sym; 1 path(s) -/
 def C07.Frustum.ZToDepth_5_0_10_persp {α : Type} [Sub α] [Mul α] [Div α] [OfNat α 0] [OfNat α 1] [OfNat α 2] [OfNat α 5] [OfNat α 10] (n : α) (f : α) (l : α) (r : α) (t : α) (b : α) : α :=
@@ -217,129 +217,129 @@ def C07.Frustum.ZToDepth_5_0_10_persp {α : Type} [Sub α] [Mul α] [Div α] [Of
 
 /-- extracted from the C++ template at T = Sym; 3 path(s) -/
 def C07.Frustum.ZToDepthExc_5_0_10_persp {α : Type} [Sub α] [Mul α] [Div α] [Neg α] [LT α] [DecidableLT α] [OfNat α 0] [OfNat α 1] [OfNat α 2] [OfNat α 5] [OfNat α 10] (tmax : α) (n : α) (f : α) (l : α) (r : α) (t : α) (b : α) : Except Exc α :=
-  let t706 := (((2 : α) * f) * n)
-  let t713 := (sabs t706)
-  let t722 := ((((((((5 : α) - (0 : α)) / (10 : α)) * (2 : α)) - (1 : α)) * (f - n)) - f) - n)
-  let t723 := (t706 / t722)
-  let t724 := (sabs t722)
-  let t725 := (tmax * t724)
-  if t724 < (1 : α) then
-    if t725 < t713 then
+  let t741 := (((2 : α) * f) * n)
+  let t748 := (sabs t741)
+  let t757 := ((((((((5 : α) - (0 : α)) / (10 : α)) * (2 : α)) - (1 : α)) * (f - n)) - f) - n)
+  let t758 := (t741 / t757)
+  let t759 := (sabs t757)
+  let t760 := (tmax * t759)
+  if t759 < (1 : α) then
+    if t760 < t748 then
       .error Exc.domainError
     else
-      .ok (t723)
+      .ok (t758)
   else
-    .ok (t723)
+    .ok (t758)
 
 /-- extracted from the C++ template at T = Sym; 1 path(s) -/
 def C07.Frustum.projectionMatrix_ortho {α : Type} [Add α] [Sub α] [Div α] [Neg α] [OfNat α 0] [OfNat α 1] [OfNat α 2] (n : α) (f : α) (l : α) (r : α) (t : α) (b : α) : (M44 α) :=
-  let t639 := (r - l)
-  let t641 := (t - b)
-  let t643 := (f - n)
-  ⟨((2 : α) / t639), (0 : α), (0 : α), (0 : α), (0 : α), ((2 : α) / t641), (0 : α), (0 : α), (0 : α), (0 : α), ((-(2 : α)) / t643), (0 : α), ((-(r + l)) / t639), ((-(t + b)) / t641), ((-(f + n)) / t643), (1 : α)⟩
+  let t674 := (r - l)
+  let t676 := (t - b)
+  let t678 := (f - n)
+  ⟨((2 : α) / t674), (0 : α), (0 : α), (0 : α), (0 : α), ((2 : α) / t676), (0 : α), (0 : α), (0 : α), (0 : α), ((-(2 : α)) / t678), (0 : α), ((-(r + l)) / t674), ((-(t + b)) / t676), ((-(f + n)) / t678), (1 : α)⟩
 
 /-- extracted from the C++ template at T = Sym; 27 path(s) -/
 def C07.Frustum.projectionMatrixExc_ortho {α : Type} [Add α] [Sub α] [Mul α] [Div α] [Neg α] [LT α] [DecidableLT α] [OfNat α 0] [OfNat α 1] [OfNat α 2] (tmax : α) (n : α) (f : α) (l : α) (r : α) (t : α) (b : α) : Except Exc (M44 α) :=
-  let t638 := (r + l)
-  let t639 := (r - l)
-  let t640 := (t + b)
-  let t641 := (t - b)
-  let t642 := (f + n)
-  let t643 := (f - n)
-  let t647 := ((-t642) / t643)
-  let t657 := (sabs t639)
-  let t658 := (tmax * t657)
-  let t659 := (sabs t638)
-  let t660 := (sabs t641)
-  let t661 := (tmax * t660)
-  let t662 := (sabs t640)
-  let t663 := (sabs t643)
-  let t664 := (tmax * t663)
-  let t665 := (sabs t642)
-  let t727 := ((-t638) / t639)
-  let t729 := ((-t640) / t641)
-  let t730 := ((2 : α) / t639)
-  let t731 := ((2 : α) / t641)
-  let t732 := ((-(2 : α)) / t643)
-  if t657 < (1 : α) then
-    if t658 < t659 then
+  let t673 := (r + l)
+  let t674 := (r - l)
+  let t675 := (t + b)
+  let t676 := (t - b)
+  let t677 := (f + n)
+  let t678 := (f - n)
+  let t682 := ((-t677) / t678)
+  let t692 := (sabs t674)
+  let t693 := (tmax * t692)
+  let t694 := (sabs t673)
+  let t695 := (sabs t676)
+  let t696 := (tmax * t695)
+  let t697 := (sabs t675)
+  let t698 := (sabs t678)
+  let t699 := (tmax * t698)
+  let t700 := (sabs t677)
+  let t762 := ((-t673) / t674)
+  let t764 := ((-t675) / t676)
+  let t765 := ((2 : α) / t674)
+  let t766 := ((2 : α) / t676)
+  let t767 := ((-(2 : α)) / t678)
+  if t692 < (1 : α) then
+    if t693 < t694 then
       .error Exc.domainError
     else
-      if t660 < (1 : α) then
-        if t661 < t662 then
+      if t695 < (1 : α) then
+        if t696 < t697 then
           .error Exc.domainError
         else
-          if t663 < (1 : α) then
-            if t664 < t665 then
+          if t698 < (1 : α) then
+            if t699 < t700 then
               .error Exc.domainError
             else
-              if t658 < (2 : α) then
+              if t693 < (2 : α) then
                 .error Exc.domainError
               else
-                if t661 < (2 : α) then
+                if t696 < (2 : α) then
                   .error Exc.domainError
                 else
-                  if t664 < (2 : α) then
+                  if t699 < (2 : α) then
                     .error Exc.domainError
                   else
-                    .ok (⟨t730, (0 : α), (0 : α), (0 : α), (0 : α), t731, (0 : α), (0 : α), (0 : α), (0 : α), t732, (0 : α), t727, t729, t647, (1 : α)⟩)
+                    .ok (⟨t765, (0 : α), (0 : α), (0 : α), (0 : α), t766, (0 : α), (0 : α), (0 : α), (0 : α), t767, (0 : α), t762, t764, t682, (1 : α)⟩)
           else
-            if t658 < (2 : α) then
+            if t693 < (2 : α) then
               .error Exc.domainError
             else
-              if t661 < (2 : α) then
+              if t696 < (2 : α) then
                 .error Exc.domainError
               else
-                .ok (⟨t730, (0 : α), (0 : α), (0 : α), (0 : α), t731, (0 : α), (0 : α), (0 : α), (0 : α), t732, (0 : α), t727, t729, t647, (1 : α)⟩)
+                .ok (⟨t765, (0 : α), (0 : α), (0 : α), (0 : α), t766, (0 : α), (0 : α), (0 : α), (0 : α), t767, (0 : α), t762, t764, t682, (1 : α)⟩)
       else
-        if t663 < (1 : α) then
-          if t664 < t665 then
+        if t698 < (1 : α) then
+          if t699 < t700 then
             .error Exc.domainError
           else
-            if t658 < (2 : α) then
+            if t693 < (2 : α) then
               .error Exc.domainError
             else
-              if t664 < (2 : α) then
+              if t699 < (2 : α) then
                 .error Exc.domainError
               else
-                .ok (⟨t730, (0 : α), (0 : α), (0 : α), (0 : α), t731, (0 : α), (0 : α), (0 : α), (0 : α), t732, (0 : α), t727, t729, t647, (1 : α)⟩)
+                .ok (⟨t765, (0 : α), (0 : α), (0 : α), (0 : α), t766, (0 : α), (0 : α), (0 : α), (0 : α), t767, (0 : α), t762, t764, t682, (1 : α)⟩)
         else
-          if t658 < (2 : α) then
+          if t693 < (2 : α) then
             .error Exc.domainError
           else
-            .ok (⟨t730, (0 : α), (0 : α), (0 : α), (0 : α), t731, (0 : α), (0 : α), (0 : α), (0 : α), t732, (0 : α), t727, t729, t647, (1 : α)⟩)
+            .ok (⟨t765, (0 : α), (0 : α), (0 : α), (0 : α), t766, (0 : α), (0 : α), (0 : α), (0 : α), t767, (0 : α), t762, t764, t682, (1 : α)⟩)
   else
-    if t660 < (1 : α) then
-      if t661 < t662 then
+    if t695 < (1 : α) then
+      if t696 < t697 then
         .error Exc.domainError
       else
-        if t663 < (1 : α) then
-          if t664 < t665 then
+        if t698 < (1 : α) then
+          if t699 < t700 then
             .error Exc.domainError
           else
-            if t661 < (2 : α) then
+            if t696 < (2 : α) then
               .error Exc.domainError
             else
-              if t664 < (2 : α) then
+              if t699 < (2 : α) then
                 .error Exc.domainError
               else
-                .ok (⟨t730, (0 : α), (0 : α), (0 : α), (0 : α), t731, (0 : α), (0 : α), (0 : α), (0 : α), t732, (0 : α), t727, t729, t647, (1 : α)⟩)
+                .ok (⟨t765, (0 : α), (0 : α), (0 : α), (0 : α), t766, (0 : α), (0 : α), (0 : α), (0 : α), t767, (0 : α), t762, t764, t682, (1 : α)⟩)
         else
-          if t661 < (2 : α) then
+          if t696 < (2 : α) then
             .error Exc.domainError
           else
-            .ok (⟨t730, (0 : α), (0 : α), (0 : α), (0 : α), t731, (0 : α), (0 : α), (0 : α), (0 : α), t732, (0 : α), t727, t729, t647, (1 : α)⟩)
+            .ok (⟨t765, (0 : α), (0 : α), (0 : α), (0 : α), t766, (0 : α), (0 : α), (0 : α), (0 : α), t767, (0 : α), t762, t764, t682, (1 : α)⟩)
     else
-      if t663 < (1 : α) then
-        if t664 < t665 then
+      if t698 < (1 : α) then
+        if t699 < t700 then
           .error Exc.domainError
         else
-          if t664 < (2 : α) then
+          if t699 < (2 : α) then
             .error Exc.domainError
           else
-            .ok (⟨t730, (0 : α), (0 : α), (0 : α), (0 : α), t731, (0 : α), (0 : α), (0 : α), (0 : α), t732, (0 : α), t727, t729, t647, (1 : α)⟩)
+            .ok (⟨t765, (0 : α), (0 : α), (0 : α), (0 : α), t766, (0 : α), (0 : α), (0 : α), (0 : α), t767, (0 : α), t762, t764, t682, (1 : α)⟩)
       else
-        .ok (⟨t730, (0 : α), (0 : α), (0 : α), (0 : α), t731, (0 : α), (0 : α), (0 : α), (0 : α), t732, (0 : α), t727, t729, t647, (1 : α)⟩)
+        .ok (⟨t765, (0 : α), (0 : α), (0 : α), (0 : α), t766, (0 : α), (0 : α), (0 : α), (0 : α), t767, (0 : α), t762, t764, t682, (1 : α)⟩)
 
 /-- extracted from the C++ template at T = Sym; 1 path(s) -/
 def C07.Frustum.projectPointToScreen_ortho {α : Type} [Add α] [Sub α] [Mul α] [Div α] [OfNat α 2] (n : α) (f : α) (l : α) (r : α) (t : α) (b : α) (p : V3 α) : (V2 α) :=
@@ -347,37 +347,37 @@ def C07.Frustum.projectPointToScreen_ortho {α : Type} [Add α] [Sub α] [Mul α
 
 /-- extracted from the C++ template at T = Sym; 7 path(s) -/
 def C07.Frustum.projectPointToScreenExc_ortho {α : Type} [Add α] [Sub α] [Mul α] [Div α] [Neg α] [LT α] [DecidableLT α] [OfNat α 0] [OfNat α 1] [OfNat α 2] (tmax : α) (n : α) (f : α) (l : α) (r : α) (t : α) (b : α) (p : V3 α) : Except Exc (V2 α) :=
-  let t673 := ((l - ((2 : α) * p.x)) + r)
-  let t674 := (l - r)
-  let t677 := ((b - ((2 : α) * p.y)) + t)
-  let t678 := (b - t)
-  let t679 := (t677 / t678)
-  let t680 := (t673 / t674)
-  let t694 := (sabs t674)
-  let t695 := (tmax * t694)
-  let t696 := (sabs t673)
-  let t697 := (sabs t678)
-  let t698 := (tmax * t697)
-  let t699 := (sabs t677)
-  if t694 < (1 : α) then
-    if t695 < t696 then
+  let t708 := ((l - ((2 : α) * p.x)) + r)
+  let t709 := (l - r)
+  let t712 := ((b - ((2 : α) * p.y)) + t)
+  let t713 := (b - t)
+  let t714 := (t712 / t713)
+  let t715 := (t708 / t709)
+  let t729 := (sabs t709)
+  let t730 := (tmax * t729)
+  let t731 := (sabs t708)
+  let t732 := (sabs t713)
+  let t733 := (tmax * t732)
+  let t734 := (sabs t712)
+  if t729 < (1 : α) then
+    if t730 < t731 then
       .error Exc.domainError
     else
-      if t697 < (1 : α) then
-        if t698 < t699 then
+      if t732 < (1 : α) then
+        if t733 < t734 then
           .error Exc.domainError
         else
-          .ok (⟨t680, t679⟩)
+          .ok (⟨t715, t714⟩)
       else
-        .ok (⟨t680, t679⟩)
+        .ok (⟨t715, t714⟩)
   else
-    if t697 < (1 : α) then
-      if t698 < t699 then
+    if t732 < (1 : α) then
+      if t733 < t734 then
         .error Exc.domainError
       else
-        .ok (⟨t680, t679⟩)
+        .ok (⟨t715, t714⟩)
     else
-      .ok (⟨t680, t679⟩)
+      .ok (⟨t715, t714⟩)
 
 /-- extracted from the C++ template at T = Sym; 1 path(s) -/
 def C07.Frustum.normalizedZToDepth_ortho {α : Type} [Add α] [Sub α] [Mul α] [Div α] [Neg α] [OfNat α 1] [OfNat α 2] (n : α) (f : α) (l : α) (r : α) (t : α) (b : α) (z : α) : α :=
@@ -401,19 +401,19 @@ def C07.Frustum.ZToDepth_12_0_10_persp {α : Type} [Sub α] [Mul α] [Div α] [O
 
 /-- extracted from the C++ template at T = Sym; 3 path(s) -/
 def C07.Frustum.ZToDepthExc_12_0_10_persp {α : Type} [Sub α] [Mul α] [Div α] [Neg α] [LT α] [DecidableLT α] [OfNat α 0] [OfNat α 1] [OfNat α 2] [OfNat α 10] (tmax : α) (n : α) (f : α) (l : α) (r : α) (t : α) (b : α) : Except Exc α :=
-  let t706 := (((2 : α) * f) * n)
-  let t713 := (sabs t706)
-  let t745 := ((((((((2 : α) - (0 : α)) / (10 : α)) * (2 : α)) - (1 : α)) * (f - n)) - f) - n)
-  let t746 := (t706 / t745)
-  let t747 := (sabs t745)
-  let t748 := (tmax * t747)
-  if t747 < (1 : α) then
-    if t748 < t713 then
+  let t741 := (((2 : α) * f) * n)
+  let t748 := (sabs t741)
+  let t780 := ((((((((2 : α) - (0 : α)) / (10 : α)) * (2 : α)) - (1 : α)) * (f - n)) - f) - n)
+  let t781 := (t741 / t780)
+  let t782 := (sabs t780)
+  let t783 := (tmax * t782)
+  if t782 < (1 : α) then
+    if t783 < t748 then
       .error Exc.domainError
     else
-      .ok (t746)
+      .ok (t781)
   else
-    .ok (t746)
+    .ok (t781)
 
 /-- extracted from the C++ template at T = Sym; 1 path(s) -/
 def C07.Frustum.ZToDepth_3_7_7_persp {α : Type} [Sub α] [Mul α] [Div α] [OfNat α 0] [OfNat α 1] [OfNat α 2] [OfNat α 3] [OfNat α 7] (n : α) (f : α) (l : α) (r : α) (t : α) (b : α) : α :=
@@ -429,37 +429,37 @@ def C07.Frustum.localToScreen {α : Type} [Add α] [Sub α] [Mul α] [Div α] [O
 
 /-- extracted from the C++ template at T = Sym; 7 path(s) -/
 def C07.Frustum.localToScreenExc {α : Type} [Add α] [Sub α] [Mul α] [Div α] [Neg α] [LT α] [DecidableLT α] [OfNat α 0] [OfNat α 1] [OfNat α 2] (tmax : α) (n : α) (f : α) (l : α) (r : α) (t : α) (b : α) (p : V2 α) : Except Exc (V2 α) :=
-  let t673 := ((l - ((2 : α) * p.x)) + r)
-  let t674 := (l - r)
-  let t677 := ((b - ((2 : α) * p.y)) + t)
-  let t678 := (b - t)
-  let t679 := (t677 / t678)
-  let t680 := (t673 / t674)
-  let t694 := (sabs t674)
-  let t695 := (tmax * t694)
-  let t696 := (sabs t673)
-  let t697 := (sabs t678)
-  let t698 := (tmax * t697)
-  let t699 := (sabs t677)
-  if t694 < (1 : α) then
-    if t695 < t696 then
+  let t708 := ((l - ((2 : α) * p.x)) + r)
+  let t709 := (l - r)
+  let t712 := ((b - ((2 : α) * p.y)) + t)
+  let t713 := (b - t)
+  let t714 := (t712 / t713)
+  let t715 := (t708 / t709)
+  let t729 := (sabs t709)
+  let t730 := (tmax * t729)
+  let t731 := (sabs t708)
+  let t732 := (sabs t713)
+  let t733 := (tmax * t732)
+  let t734 := (sabs t712)
+  if t729 < (1 : α) then
+    if t730 < t731 then
       .error Exc.domainError
     else
-      if t697 < (1 : α) then
-        if t698 < t699 then
+      if t732 < (1 : α) then
+        if t733 < t734 then
           .error Exc.domainError
         else
-          .ok (⟨t680, t679⟩)
+          .ok (⟨t715, t714⟩)
       else
-        .ok (⟨t680, t679⟩)
+        .ok (⟨t715, t714⟩)
   else
-    if t697 < (1 : α) then
-      if t698 < t699 then
+    if t732 < (1 : α) then
+      if t733 < t734 then
         .error Exc.domainError
       else
-        .ok (⟨t680, t679⟩)
+        .ok (⟨t715, t714⟩)
     else
-      .ok (⟨t680, t679⟩)
+      .ok (⟨t715, t714⟩)
 
 /-- extracted from the C++ template at T = Sym; 1 path(s) -/
 def C07.Frustum.screenRadius {α : Type} [Mul α] [Div α] [Neg α] (n : α) (f : α) (l : α) (r : α) (t : α) (b : α) (p : V3 α) (radius : α) : α :=
@@ -467,16 +467,16 @@ def C07.Frustum.screenRadius {α : Type} [Mul α] [Div α] [Neg α] (n : α) (f 
 
 /-- extracted from the C++ template at T = Sym; 3 path(s) -/
 def C07.Frustum.screenRadiusExc {α : Type} [Mul α] [Div α] [Neg α] [LT α] [DecidableLT α] [OfNat α 0] [OfNat α 1] (tmax : α) (n : α) (f : α) (l : α) (r : α) (t : α) (b : α) (p : V3 α) (radius : α) : Except Exc α :=
-  let t760 := (-n)
-  let t762 := (radius * (t760 / p.z))
-  let t763 := (sabs p.z)
-  let t764 := (tmax * t763)
-  let t765 := (sabs t760)
-  if (1 : α) < t763 then
-    .ok (t762)
+  let t795 := (-n)
+  let t797 := (radius * (t795 / p.z))
+  let t798 := (sabs p.z)
+  let t799 := (tmax * t798)
+  let t800 := (sabs t795)
+  if (1 : α) < t798 then
+    .ok (t797)
   else
-    if t765 < t764 then
-      .ok (t762)
+    if t800 < t799 then
+      .ok (t797)
     else
       .error Exc.domainError
 
@@ -486,16 +486,16 @@ def C07.Frustum.worldRadius {α : Type} [Mul α] [Div α] [Neg α] (n : α) (f :
 
 /-- extracted from the C++ template at T = Sym; 3 path(s) -/
 def C07.Frustum.worldRadiusExc {α : Type} [Mul α] [Div α] [Neg α] [LT α] [DecidableLT α] [OfNat α 0] [OfNat α 1] (tmax : α) (n : α) (f : α) (l : α) (r : α) (t : α) (b : α) (p : V3 α) (radius : α) : Except Exc α :=
-  let t760 := (-n)
-  let t763 := (sabs p.z)
-  let t765 := (sabs t760)
-  let t767 := (radius * (p.z / t760))
-  let t768 := (tmax * t765)
-  if (1 : α) < t765 then
-    .ok (t767)
+  let t795 := (-n)
+  let t798 := (sabs p.z)
+  let t800 := (sabs t795)
+  let t802 := (radius * (p.z / t795))
+  let t803 := (tmax * t800)
+  if (1 : α) < t800 then
+    .ok (t802)
   else
-    if t763 < t768 then
-      .ok (t767)
+    if t798 < t803 then
+      .ok (t802)
     else
       .error Exc.domainError
 
@@ -505,46 +505,46 @@ def C07.Frustum.aspect {α : Type} [Sub α] [Div α] (n : α) (f : α) (l : α) 
 
 /-- extracted from the C++ template at T = Sym; 3 path(s) -/
 def C07.Frustum.aspectExc {α : Type} [Sub α] [Mul α] [Div α] [Neg α] [LT α] [DecidableLT α] [OfNat α 0] [OfNat α 1] (tmax : α) (n : α) (f : α) (l : α) (r : α) (t : α) (b : α) : Except Exc α :=
-  let t639 := (r - l)
-  let t641 := (t - b)
-  let t657 := (sabs t639)
-  let t660 := (sabs t641)
-  let t661 := (tmax * t660)
-  let t769 := (t639 / t641)
-  if t660 < (1 : α) then
-    if t661 < t657 then
+  let t674 := (r - l)
+  let t676 := (t - b)
+  let t692 := (sabs t674)
+  let t695 := (sabs t676)
+  let t696 := (tmax * t695)
+  let t804 := (t674 / t676)
+  if t695 < (1 : α) then
+    if t696 < t692 then
       .error Exc.domainError
     else
-      .ok (t769)
+      .ok (t804)
   else
-    .ok (t769)
+    .ok (t804)
 
 /-- extracted from the C++ template at T = Sym; 2 path(s) -/
 def C07.Frustum.setFov {α : Type} [Sub α] [Mul α] [Div α] [Neg α] [DecidableEq α] [OfNat α 0] [OfNat α 2] (tan : α → α) (n : α) (f : α) (fovx : α) (fovy : α) (aspect : α) : (α × α × α × α × α × α × Bool) :=
-  let t777 := (n * (tan (fovy / (2 : α))))
-  let t778 := (-t777)
-  let t781 := (((t777 - t778) * aspect) / (2 : α))
-  let t785 := (n * (tan (fovx / (2 : α))))
-  let t786 := (-t785)
-  let t789 := (((t785 - t786) / aspect) / (2 : α))
+  let t812 := (n * (tan (fovy / (2 : α))))
+  let t813 := (-t812)
+  let t816 := (((t812 - t813) * aspect) / (2 : α))
+  let t820 := (n * (tan (fovx / (2 : α))))
+  let t821 := (-t820)
+  let t824 := (((t820 - t821) / aspect) / (2 : α))
   if fovx = (0 : α) then
-    (n, f, (-t781), t781, t777, t778, false)
+    (n, f, (-t816), t816, t812, t813, false)
   else
-    (n, f, t786, t785, t789, (-t789), false)
+    (n, f, t821, t820, t824, (-t824), false)
 
 /-- extracted from the C++ template at T = Sym; 3 path(s) -/
 def C07.Frustum.setFovExc {α : Type} [Sub α] [Mul α] [Div α] [Neg α] [DecidableEq α] [OfNat α 0] [OfNat α 2] (tan : α → α) (n : α) (f : α) (fovx : α) (fovy : α) (aspect : α) : Except Exc (α × α × α × α × α × α × Bool) :=
-  let t777 := (n * (tan (fovy / (2 : α))))
-  let t778 := (-t777)
-  let t781 := (((t777 - t778) * aspect) / (2 : α))
-  let t785 := (n * (tan (fovx / (2 : α))))
-  let t786 := (-t785)
-  let t789 := (((t785 - t786) / aspect) / (2 : α))
+  let t812 := (n * (tan (fovy / (2 : α))))
+  let t813 := (-t812)
+  let t816 := (((t812 - t813) * aspect) / (2 : α))
+  let t820 := (n * (tan (fovx / (2 : α))))
+  let t821 := (-t820)
+  let t824 := (((t820 - t821) / aspect) / (2 : α))
   if fovx = (0 : α) then
-    .ok ((n, f, (-t781), t781, t777, t778, false))
+    .ok ((n, f, (-t816), t816, t812, t813, false))
   else
     if fovy = (0 : α) then
-      .ok ((n, f, t786, t785, t789, (-t789), false))
+      .ok ((n, f, t821, t820, t824, (-t824), false))
     else
       .error Exc.domainError
 
